@@ -43,7 +43,8 @@ type actor struct {
 	pending  []*pendingOp
 	finished bool
 	dead     bool
-	expect   int // expected size of the next parallel batch (0 = unknown)
+	expect   int  // expected size of the next parallel batch (0 = unknown)
+	mayBlock bool // a submission that takes the issuers lock (it carries issuers)
 	result   any
 	gen      int
 	handled  bool
@@ -63,6 +64,8 @@ type scheduler struct {
 	actors  []*actor
 	current *actor
 	hung    []string
+	// set before launching a submission that carries issuers
+	nextMayBlock bool
 }
 
 func newScheduler() *scheduler {
@@ -107,7 +110,8 @@ func (s *scheduler) done(op *pendingOp) {
 // launch starts fn as a new actor and runs it until it yields or finishes.
 func (s *scheduler) launchGen(kind string, inst, gen int, fn func(ctx context.Context) any) *actor {
 	s.mu.Lock()
-	a := &actor{id: len(s.actors), inst: inst, kind: kind, gen: gen}
+	a := &actor{id: len(s.actors), inst: inst, kind: kind, gen: gen, mayBlock: s.nextMayBlock}
+	s.nextMayBlock = false
 	s.actors = append(s.actors, a)
 	s.current = a
 	s.mu.Unlock()
@@ -148,12 +152,19 @@ func (s *scheduler) launchGenCtx(kind string, inst, gen int, derive func(ctx con
 // least one pending operation (all `expect` of them for a parallel batch).
 func (s *scheduler) settle(a *actor) {
 	deadline := time.Now().Add(120 * time.Second)
-	if a.kind == "submit" {
-		// a submission can block on the issuers mutex held by another, parked, submission
-		deadline = time.Now().Add(40 * time.Millisecond)
-	}
 	s.mu.Lock()
 	defer s.mu.Unlock()
+	if a.kind == "submit" {
+		// a submission can block on the issuers mutex held by another, parked, submission: give up on it quickly then.
+		// With nobody parked it is only waiting for a processor (the order of the trace must not depend on that).
+		deadline = time.Now().Add(10 * time.Second)
+		for _, b := range s.actors {
+			// (the issuers lock is only touched by a submission that carries issuers)
+			if a.mayBlock && b != a && b.kind == "submit" && b.inst == a.inst && !b.finished && !b.dead && (len(b.pending) > 0 || b.blocked) {
+				deadline = time.Now().Add(200 * time.Millisecond)
+			}
+		}
+	}
 	waitUntil := func(cond func() bool, d time.Time) bool {
 		for !cond() {
 			if time.Now().After(d) {
